@@ -297,7 +297,7 @@ def single_comm_only(ctx, b, fname) -> bool:
         for c in A.calls_in(fn, nested=True):
             if A.is_self_attr(c.func, fname):
                 callers += 1
-                tests = G.enclosing_tests(fn, c)
+                tests = G.path_conditions(fn, c)
                 ok = False
                 for t, pol in tests:
                     conj = t.values if isinstance(t, ast.BoolOp) and isinstance(t.op, ast.And) else [t]
@@ -446,7 +446,7 @@ def check_gating(ctx):
                 continue  # the all-pairs emitter itself: its call sites are the gated ones
             n += 1
             unit = unit_of(fn, call)
-            tests = G.enclosing_tests(unit, call)
+            tests = G.path_conditions(unit, call)
             d = dict(A.single_defs(fn))
             d.update(A.single_defs(unit))
             # the unit serves both roles when the enclosing method has a `role` parameter; otherwise it exists on the receiving side only
